@@ -234,25 +234,33 @@ func (w *World) describeVal(kv KV, val []byte, has bool) {
 		kv["prio"] = 0
 		return
 	}
-	var p struct {
-		ID       *string `json:"id"`
-		Token    *string `json:"token"`
-		Priority int     `json:"priority"`
-	}
-	if len(val) == 0 {
-		kv["cls"] = "empty"
-	} else if err := json.Unmarshal(val, &p); err != nil || p.ID == nil || p.Token == nil {
-		kv["cls"] = "malformed"
-	} else {
-		kv["cls"] = "payload"
-		kv["id"] = *p.ID
-		kv["tok"] = w.tr.Tok(*p.Token)
-		kv["prio"] = p.Priority
-		return
-	}
 	kv["id"] = ""
 	kv["tok"] = 0
 	kv["prio"] = 0
+	if len(val) == 0 {
+		kv["cls"] = "empty"
+		return
+	}
+	var m map[string]any
+	if err := json.Unmarshal(val, &m); err != nil || m == nil {
+		kv["cls"] = "malformed"
+		return
+	}
+	kv["cls"] = "object"
+	if f, ok := m["priority"].(float64); ok && f == float64(int(f)) && f > -1e9 && f < 1e9 {
+		kv["prio"] = int(f)
+	}
+	id, okID := m["id"].(string)
+	tok, okTok := m["token"].(string)
+	if okID {
+		kv["id"] = id
+	}
+	if okTok {
+		kv["tok"] = w.tr.Tok(tok)
+	}
+	if okID && okTok {
+		kv["cls"] = "payload"
+	}
 }
 
 // number assigns the ordinals used by Match (caller holds w.mu).
@@ -503,7 +511,7 @@ func (w *World) setup() error {
 	}
 	w.tr.Emit("env", "reset", KV{"name": sc.Name, "h": sc.HUs, "ttl": sc.TTLUs, "bttl": sc.BucketTTLUs,
 		"insts": instInfo, "ids": w.order, "family": sc.Family, "origin": sc.Origin,
-		"lat_max": sc.LatMaxUs, "end": sc.EndUs, "ptimeout": sc.PartTimeoutUs})
+		"lat_max": sc.LatMaxUs, "watch_max": sc.WatchMaxUs, "end": sc.EndUs, "ptimeout": sc.PartTimeoutUs})
 	for i := range sc.Steps {
 		s := &sc.Steps[i]
 		if s.When != nil {
